@@ -190,6 +190,8 @@ def run(ctx):
         "reads_getter", "plain_mem", "plain_ods", "plain_odsq4", "wrapper_proofscache", "wrapper_validation",
         "wrapper_closeonce", "open_store_recent", "open_store_file", "open_cachedstore_loaded", "open_cachedstore_serving",
         "open_store_serving", "open_byhash_file", "open_byhash_empty"]
+    if c.get("cases_given_up_cache_grace_period", 0):
+        ctx.note("%d case(s) given up: a held reference to an evicted accessor would have outlived the cache's one-minute close time-out (C08, DESIGN §11)" % c["cases_given_up_cache_grace_period"])
     miss = [k for k in need if c.get(k, 0) <= 0]
     if miss:
         ctx.inconclusive("vacuity: never exercised on the real store: %s" % miss)
@@ -197,5 +199,9 @@ def run(ctx):
     ctx.log("driver: %d of %d cases run (%d skipped for the time budget), %d reads" % (
         run_, total, c.get("cases_skipped_budget", 0),
         sum(v for k, v in c.items() if k.startswith("reads_"))))
-    if run_ < 0.35 * total:
+    ctx.cover(replay_cases_run=int(run_), replay_cases_planned=int(total))
+    # The cases are run in seeded random order, so a run cut short by the time budget (loaded machine) is a
+    # uniform sample of the transitions x layouts; the vacuity list above makes sure every action, way of
+    # opening, representation and rejection class was exercised. Below a floor the run says nothing.
+    if run_ < (300 if quick else 3000):
         ctx.inconclusive("only %d of %d cases were run within the time budget" % (run_, total))
